@@ -186,7 +186,7 @@ struct Gen {
 	Op gen_param(int client) { Op o = mk(client, "param"); seti(o, "o", r.below(4)); static const char *w[] = {"pprice", "dprice", "display", "scaling", "precision"}; std::string what = w[r.below(5)]; if (what == "display" && !ok("param:display")) what = "pprice";
 		if (r.chance(1, 10) && ok("param:limits")) { static const char *lw[] = {"maxiter", "maxtime", "objulim", "objllim"}; what = lw[r.below(4)]; } set(o, "what", what); seti(o, "v", r.below(12)); return o; }
 	Op gen_invalid(int client) {
-		if (r.chance(1, 3)) { Op o = mk(client, "qinvalid"); seti(o, "o", r.below(4)); seti(o, "v", r.below(7 * 16 * 4)); return o; }
+		if (r.chance(1, 3)) { Op o = mk(client, "qinvalid"); seti(o, "o", r.below(4)); seti(o, "v", r.below(7 * 18 * 4)); return o; }
 		if (r.chance(1, 8)) { Op o = mk(client, "param"); seti(o, "o", r.below(4)); Fault f; f.kind = "api.invalid"; f.a["v"] = std::to_string(r.below(72)); o.faults.push_back(f); return o; }
 		if (r.chance(1, 7) && ok("invalid:loadbasis")) { Op o = mk(client, "basis"); seti(o, "o", r.below(4)); set(o, "what", "load"); Fault f; f.kind = "api.invalid"; f.a["v"] = std::to_string(r.below(8000)); o.faults.push_back(f); return o; }
 		Op o = gen_edit(client); Fault f; f.kind = "api.invalid"; f.a["v"] = std::to_string(r.below(7 * 2 * 5 * 3)); o.faults.push_back(f); return o;
